@@ -326,3 +326,11 @@ Theorem C09_skeleton_assumptions :
   KV.Model.SkeletonAssumptions.writer_assumptions_hold KV.Gen.Skeleton.calls KV.Gen.Skeleton.accesses = true.
 Proof. exact KV.Proofs.SkeletonWriter.writer_skeleton_ok. Qed.
 Print Assumptions C09_skeleton_assumptions.
+
+(* ---- the synchronisation skeleton the model assumes (which Go critical section / channel operation each step of Model/Lifecycle.v, Model/GroupReader.v, Model/ReaderModel.v stands for, reader_assumptions: Model/SkeletonAssumptions.v)
+   holds of /repo's CURRENT source: call/access facts regenerated by harness/cmd/vskel on every run. *)
+From KV Require Model.SkeletonAssumptions Gen.Skeleton Proofs.SkeletonReader.
+Theorem C09_reader_skeleton_assumptions :
+  KV.Model.SkeletonAssumptions.reader_assumptions_hold KV.Gen.Skeleton.calls KV.Gen.Skeleton.accesses = true.
+Proof. exact KV.Proofs.SkeletonReader.reader_skeleton_ok. Qed.
+Print Assumptions C09_reader_skeleton_assumptions.
